@@ -50,6 +50,10 @@ CHECKS = {
    text="BFS over histories of subscribe / two-chunk report reads / report ok or fail / attribute, cluster and endpoint changes / coalescing bursts / reporter iterations (remove-expired, report-or-purge) / unsubscribe / clock ticks on the real Subscriptions<2> table; in every visited state two bounded-liveness runs follow the table's own deadlines (all further reports succeed / all fail) and require that every live subscriber ends up knowing every current value, that failing subscriptions get no report attempt after max interval, and that min/max intervals are respected.",
    note="Model level: reads are should_report_attr decisions; events and the wire/chunk encoding are not part of this check; 'eventually' = within 16 reporter iterations at the announced deadlines.",
    tech="explicit-state BFS over operation histories of the real implementation with a bounded-liveness oracle per state"),
+ "C14": dict(cat="exploration",
+   text="The C06 world with an administrator as requester. Full sweep, within the bounds, of node compositions whose attribute values are octet strings and lists of octet strings with sizes stepped byte by byte across every boundary (an octet string of every size 0..1300 next to fixed ones, every size 1000..1260 alone and after a small value in every request shape, lists of 0..40 items of every size 0..420, lists with items as large as a message, 1..60 attributes of three sizes on one and two endpoints) x request shape (wildcard, concrete paths, reversed) x data version filter (none, matching, stale) x read / subscription priming; plus five kinds of node change applied while the answer is being produced. Oracle: the chunks reassemble to every selected value exactly once (lists: whole or empty list followed by appended items reassembling to the original), each chunk decodes on its own and fits 1280 bytes, only the last chunk ends the interaction, no empty chunks, the interaction terminates.",
+   note="The transmit buffer size is a compile-time constant of the build under test and is not varied (value sizes are swept across its boundaries instead); a value too large for any message (from 1100 bytes on) may be answered with 'resource exhausted'; event reports and event filters are not part of this check.",
+   tech="bounded exhaustive input / configuration enumeration on the real two-node system against a reassembly oracle"),
  "C15": dict(cat="model_checking",
    text="The wire log of every execution of the C09 exploration (all schedules within the deviation bound, CASE/PASE, all receiver behaviours and loss policies) plus a pipelining client against an acknowledge-then-reply handler is checked: datagrams with equal (sender, session id, counter) must be byte-identical, and first transmissions per sender and session must carry strictly increasing counters.",
    note="Covers MRP traffic on pre-established sessions; handshake and IM traffic are added to this oracle by the harnesses of C01/C02/C13 when built; locally chosen session/exchange id uniqueness is checked with C20.",
